@@ -91,6 +91,23 @@ CLAIMED.update({
         "applyLog_iff (decision rule, with binary64 rounding of pub/plb), affine_otherwise. Correspondence: real VariableTransformer on random valid bound sets (1e-12..1e12, infinite, mixed, decade-edge) vs Tr.* - flags exact through Fl.rn, "
         "affine part and clamps by the model, numpy log/exp harness-side; the property's clauses are evaluated on the implementation's own outputs. The floating-point round-trip bound (1e-9 of the width) is measured, not proved.",
    design="5 / C11", technique="Lean 4 theorems over an abstract strictly-monotone scale + differential with measured float error"),
+ "C10": dict(
+   text="Theorems (Props/C10.lean) about Log.call / Log.runCalls for every position k of the faulty call and every fault kind: call_invalid (error table: the target's own exception for a raise, ValueError for every invalid value), "
+        "call_valid_ok (with the invariant that logged points are pairwise distinct under specified noise), stops_at_first_fault (the first invalid outcome ends the run with its own error, at call k), fc_counts_valid_only, "
+        "failed_call_logs_nothing. Correspondence: fault enumeration on real runs - the target misbehaves at call k (every phase; every index in the thorough tier) in each fault kind and noise mode; exception type, no further target call, "
+        "func_count = k, log unchanged by the failed call, and the prefix equal to the clean run's.",
+   design="5 / C10", technique="Lean 4 theorems over the logger state machine + fault enumeration at every call index"),
+ "C15": dict(
+   text="Theorems (Props/C15.lean) for every log state, distance vector and size option: neighbors_sub_log (every training triple is a log row; noise enters as the logged SD squared), ranked_sorted, neighbors_nearest, ranked_perm, "
+        "ntrain_bounds, neighbors_length, fevals_variance, addPoint_is_last, lcb_def, lcb_antitone_in_sd, lcb_monotone_in_mean. Correspondence: every training-set selection (incl. history re-evaluation), posterior update and "
+        "acquisition call of the traced runs vs GP.neighbors on the same log snapshot and distances; clauses evaluated on the implementation's arrays; beta_t recomputed from the documented schedule.",
+   design="5 / C15", technique="Lean 4 theorems over the training-set selection model + per-event differential on traced runs"),
+ "C16": dict(
+   text="Theorems (Props/C16.lean): robustFit_shapes_agree (X, y and the noise vector have the same length at every retry), robustFit_defined (k consecutive failures then a success, fewer than 10 attempts: returns after k+1 attempts), "
+        "initFit_terminates, updateFallback_restores, guarantees_survive_faults (C01/C03/C04 theorems hold verbatim: GP results are universally quantified oracle inputs there). Correspondence: LinAlgError injected into GP.fit at "
+        "schedules of invocation indices (single, 2-4 consecutive, scattered; every index in the thorough tier), deterministic and noisy modes; the run must complete, attempt shapes vs the model, and the C01/C03/C04 run-level checks are "
+        "re-run on every faulted run.",
+   design="5 / C16", technique="Lean 4 theorems over the retry model + fault-schedule enumeration on real runs"),
 })
 
 NA = {
